@@ -70,6 +70,10 @@ pub fn scenarios() -> Vec<Scenario> {
         Scenario { name: "3tcp", clients: vec![("tcp", "q0.example"), ("tcp", "q1.example"), ("tcp", "q2.example")], udp_default_tc: false, listener: "::1", client_ip: "::1" },
         Scenario { name: "2udp-same", clients: vec![("udp", "same.example"), ("udp", "same.example")], udp_default_tc: false, listener: "::1", client_ip: "::1" },
         Scenario { name: "1tcp", clients: vec![("tcp", "q0.example")], udp_default_tc: false, listener: "::1", client_ip: "::1" },
+        // more queries in flight than the per-nameserver request channel holds (capacity 2)
+        Scenario { name: "6tcp", clients: vec![("tcp", "q0.example"), ("tcp", "q1.example"), ("tcp", "q2.example"), ("tcp", "q3.example"), ("tcp", "q4.example"), ("tcp", "q5.example")], udp_default_tc: false, listener: "::1", client_ip: "::1" },
+        Scenario { name: "4udp-tc", clients: vec![("udp", "q0.example"), ("udp", "q1.example"), ("udp", "q2.example"), ("udp", "q3.example")], udp_default_tc: true, listener: "::1", client_ip: "::1" },
+        Scenario { name: "mixed", clients: vec![("udp", "q0.example"), ("tcp", "q1.example"), ("udp", "q0.example")], udp_default_tc: false, listener: "::1", client_ip: "::1" },
     ]
 }
 
@@ -674,9 +678,10 @@ pub fn explore(sc: &Scenario, root: &[usize], bound: usize, res: &mut SubtreeRes
 fn bound_for(tier: &str, sc: &str) -> usize {
     match (tier, sc) {
         ("thorough", "1udp") => 4,
-        ("thorough", "3tcp") => 3,
+        ("thorough", "6tcp") | ("thorough", "4udp-tc") => 2,
         ("thorough", _) => 3,
         (_, "1udp") => 3,
+        (_, "6tcp") | (_, "4udp-tc") => 1,
         _ => 2,
     }
 }
